@@ -282,3 +282,7 @@ for _e in ENGINES:
     for _p in ('C02', 'C05', 'C10', 'C20'):
       if _p not in _e['serves_properties']: _e['serves_properties'].append(_p)
     _e['serves_properties'].sort()
+
+# ---- propcomp / cachetrace units (C03 / C13 / C05) ---------------------------------------------------------------------------------------
+_patch('C03', 'level_note', 'Not decided: field numbering by the compiler vs run-time Field order,', 'Decided for the compiler (propcomp unit, stub-and-log extraction of the real Compiler::assign / send / assign_binary / access / property_get / property_set / atom / apply_atom / apply_trailers): a fixed-slot GetProp / SetProp is emitted only when the receiver is self itself, the field is known to the class being compiled and that class has no explicit superclass; every other access goes by name (D26 found and fixed here: the write of `o.b += v`). Not decided: field numbering by the compiler vs run-time Field order,')
+_patch('C13', 'level_note', 'and A-classid (no class address reuse while cached): true since the caches are GC roots', 'and A-classid (no class address reuse while cached): true since the caches are GC roots and InlineCache::trace reaches the class of every filled entry and every cached method (cachetrace unit)')
